@@ -57,6 +57,8 @@ for fn in sorted(os.listdir(mdir)):
         results[c] = {"applied": True, "builds": True, "checks": r}
     finally:
         subprocess.run(["git", "-C", "/repo", "checkout", "--", "."], check=True)
+        subprocess.run(["/verif/harness/bin/extract", "/repo", "/verif/lean/XixiKV/Generated"], capture_output=True)
+        subprocess.run(["/verif/harness/bin/trans", "/repo", "/verif/lean/XixiKV/Generated/Trans.lean"], capture_output=True)
         subprocess.run(["git", "-C", "/repo", "clean", "-fdq"], check=True)
     print(c, json.dumps(results[c])[:600], flush=True)
 json.dump(results, open(os.path.join(V, "dev", "mutants-result.json"), "w"), indent=1)
